@@ -4,11 +4,13 @@
 //!   vh run                                                            case lines on stdin →
 //!        one line per case: `<observation>\t<oracle failures, '; '-joined, or empty>`
 mod common;
+mod eng_cnf;
 mod eng_comb;
 mod eng_reader;
 mod eng_renumber;
 mod eng_scan;
 mod eng_writer;
+mod gen_cnf;
 
 use common::*;
 use std::io::{BufRead, Write};
@@ -28,6 +30,7 @@ pub fn run_line(line: &str) -> (String, Vec<String>) {
         "scan" => eng_scan::run_case(line),
         "writer" => eng_writer::run_case(line),
         "renumber" => eng_renumber::run_case(line),
+        "cnf" => eng_cnf::run_case(line),
         _ => ("unknown-engine".into(), vec![]),
     }
 }
@@ -70,6 +73,15 @@ fn main() {
                     "scan" => eng_scan::gen_case(&mut r, thorough),
                     "writer" => eng_writer::gen_case(&mut r, thorough),
                     "renumber" => eng_renumber::gen_case(&mut r, thorough),
+                    "cnf" => {
+                        if opt == "sweep" {
+                            for l in gen_cnf::fault_sweep(&mut r) {
+                                writeln!(out, "{}", l).unwrap();
+                            }
+                            continue;
+                        }
+                        gen_cnf::gen_case(&mut r, opt, thorough)
+                    }
                     _ => panic!("unknown engine {}", engine),
                 };
                 writeln!(out, "{}", line).unwrap();
